@@ -803,6 +803,20 @@ static ASMJIT_INLINE Error rw_handle_avx512(const BaseInst& inst, const InstDB::
   return Error::kOk;
 }
 
+// Filters operands that can be replaced by memory by instruction options - {er} and {sae} are only provided by
+// register-only forms, and {z} cannot be used with a memory destination.
+static ASMJIT_INLINE uint32_t rw_filter_rm_ops_mask(const BaseInst& inst, uint32_t rm_ops_mask) noexcept {
+  if (inst.has_option(InstOptions::kX86_ER | InstOptions::kX86_SAE)) {
+    return 0;
+  }
+
+  if (inst.has_option(InstOptions::kX86_ZMask)) {
+    rm_ops_mask &= ~uint32_t(0x1);
+  }
+
+  return rm_ops_mask;
+}
+
 static ASMJIT_INLINE bool has_same_reg_type(const Reg* regs, size_t op_count) noexcept {
   ASMJIT_ASSERT(op_count > 0);
   RegType reg_type = regs[0].reg_type();
@@ -957,8 +971,8 @@ Error query_rw_info(Arch arch, const BaseInst& inst, const Operand_* operands, s
       }
     }
 
-    rm_ops_mask &= uint32_t(inst_rm_info.rm_ops_mask);
-    if (rm_ops_mask && !inst.has_option(InstOptions::kX86_ER)) {
+    rm_ops_mask &= rw_filter_rm_ops_mask(inst, inst_rm_info.rm_ops_mask);
+    if (rm_ops_mask) {
       Support::BitWordIterator<uint32_t> it(rm_ops_mask);
       do {
         i = it.next();
@@ -1397,12 +1411,14 @@ Error query_rw_info(Arch arch, const BaseInst& inst, const Operand_* operands, s
           out->_operands[0].reset(W, size0);
           out->_operands[1].reset(R, size1);
 
-          if (inst_rm_info.rm_ops_mask & 0x1) {
+          uint32_t rm_ops_mask = rw_filter_rm_ops_mask(inst, inst_rm_info.rm_ops_mask);
+
+          if (rm_ops_mask & 0x1) {
             out->_operands[0].add_op_flags(RegM);
             out->_operands[0].set_rm_size(size0);
           }
 
-          if (inst_rm_info.rm_ops_mask & 0x2) {
+          if (rm_ops_mask & 0x2) {
             out->_operands[1].add_op_flags(RegM);
             out->_operands[1].set_rm_size(size1);
           }
@@ -1487,12 +1503,14 @@ Error query_rw_info(Arch arch, const BaseInst& inst, const Operand_* operands, s
         }
 
         if (operands[0].is_reg() && operands[1].is_reg()) {
-          if (inst_rm_info.rm_ops_mask & 0x1) {
+          uint32_t rm_ops_mask = rw_filter_rm_ops_mask(inst, inst_rm_info.rm_ops_mask);
+
+          if (rm_ops_mask & 0x1) {
             out->_operands[0].add_op_flags(RegM);
             out->_operands[0].set_rm_size(size0);
           }
 
-          if (inst_rm_info.rm_ops_mask & 0x2) {
+          if (rm_ops_mask & 0x2) {
             out->_operands[1].add_op_flags(RegM);
             out->_operands[1].set_rm_size(size1);
           }
